@@ -316,6 +316,68 @@ static Shape* new_shape(const std::string& kind, unsigned dim, const std::string
   Rational_Box t(dim, empty ? EMPTY : UNIVERSE); if (how == "cons") t.add_constraints(cs); return new ShapeT<Rational_Box>(t);
 }
 
+// ---------------------------------------------------------------------------------------------------------------
+// the EMPTY set in every emptiness state:  newe <id> <topo> <dim> <state> <seed>
+//   marked   built EMPTY                       addc     ordinary bounds + an inconsistent pair through add_constraint,
+//   refine   the same through refine_with_constraint        never queried
+//   cons     constructor from the inconsistent system        meet     intersection of two disjoint non-empty objects
+//   queried  addc, then is_empty()                           minq     addc, then minimized_constraints()
+//   pend     (polyhedra) a minimized non-empty object, then the inconsistent constraint left pending
+static void empty_system(Rng& rng, unsigned dim, bool strict_ok, bool relational_ok, std::vector<Constraint>& ord, std::vector<Constraint>& bad) {
+  unsigned v = rng.below(dim);
+  for (unsigned i = 0; i < dim; ++i) {
+    if (i == v || rng.below(3) == 0) continue;
+    long lo = (long) rng.below(6) - 3, hi = lo + (long) rng.below(5);
+    ord.push_back(Variable(i) >= lo); if (rng.below(4)) ord.push_back(Variable(i) <= hi);
+  }
+  long a = (long) rng.below(7) - 2; unsigned k = rng.below(4);
+  if (k == 0 && strict_ok) { bad.push_back(Variable(v) > a); bad.push_back(Variable(v) <= a); }
+  else if (k == 1) { bad.push_back(Variable(v) == a); bad.push_back(Variable(v) == a + 1 + (long) rng.below(3)); }
+  else if (k == 2 && relational_ok && dim > 1) { unsigned u = (v + 1 + rng.below(dim - 1)) % dim;
+    bad.push_back(Variable(v) - Variable(u) >= 1 + (long) rng.below(2)); bad.push_back(Variable(u) - Variable(v) >= 0);
+    ord.push_back(Variable(u) >= a); }
+  else { bad.push_back(Variable(v) >= a + 1 + (long) rng.below(3)); bad.push_back(Variable(v) <= a); }
+}
+static Polyhedron* empty_poly(bool c, unsigned dim, const std::string& st, unsigned long seed) {
+  Rng rng(seed);
+  if (st == "marked" || dim == 0) return make(c, dim, EMPTY);
+  std::vector<Constraint> ord, bad; empty_system(rng, dim, !c, true, ord, bad);
+  Polyhedron* p = 0;
+  if (st == "cons") { Constraint_System cs; cs.set_space_dimension(dim); for (size_t i = 0; i < ord.size(); ++i) cs.insert(ord[i]); for (size_t i = 0; i < bad.size(); ++i) cs.insert(bad[i]); return make(c, cs); }
+  if (st == "meet") { p = make(c, dim, UNIVERSE); Polyhedron* q = make(c, dim, UNIVERSE);
+    for (size_t i = 0; i < ord.size(); ++i) { p->add_constraint(ord[i]); q->add_constraint(ord[i]); }
+    p->add_constraint(bad[0]); q->add_constraint(bad[1]); p->intersection_assign(*q); delete q; return p; }
+  if (st == "pend") { p = make(c, dim, UNIVERSE); for (size_t i = 0; i < ord.size(); ++i) p->add_constraint(ord[i]); p->add_constraint(bad[0]); p->minimize(); p->add_constraint(bad[1]); return p; }
+  p = make(c, dim, UNIVERSE);
+  if (st == "refine") { for (size_t i = 0; i < ord.size(); ++i) p->refine_with_constraint(ord[i]); for (size_t i = 0; i < bad.size(); ++i) p->refine_with_constraint(bad[i]); return p; }
+  for (size_t i = 0; i < ord.size(); ++i) p->add_constraint(ord[i]); for (size_t i = 0; i < bad.size(); ++i) p->add_constraint(bad[i]);
+  if (st == "addc") return p;
+  if (st == "queried") { (void) p->is_empty(); return p; }
+  if (st == "minq") { (void) p->minimized_constraints(); return p; }
+  delete p; throw std::runtime_error("case: unknown emptiness state " + st);
+}
+template <typename T> static Shape* empty_shape_t(unsigned dim, const std::string& st, unsigned long seed, bool strict_ok, bool relational_ok) {
+  Rng rng(seed);
+  if (st == "marked" || dim == 0) return new ShapeT<T>(T(dim, EMPTY));
+  std::vector<Constraint> ord, bad; empty_system(rng, dim, strict_ok, relational_ok, ord, bad);
+  if (st == "cons") { Constraint_System cs; cs.set_space_dimension(dim); for (size_t i = 0; i < ord.size(); ++i) cs.insert(ord[i]); for (size_t i = 0; i < bad.size(); ++i) cs.insert(bad[i]); return new ShapeT<T>(T(cs)); }
+  if (st == "meet") { T p(dim, UNIVERSE), q(dim, UNIVERSE);
+    for (size_t i = 0; i < ord.size(); ++i) { p.add_constraint(ord[i]); q.add_constraint(ord[i]); }
+    p.add_constraint(bad[0]); q.add_constraint(bad[1]); p.intersection_assign(q); return new ShapeT<T>(p); }
+  T p(dim, UNIVERSE);
+  if (st == "refine") { for (size_t i = 0; i < ord.size(); ++i) p.refine_with_constraint(ord[i]); for (size_t i = 0; i < bad.size(); ++i) p.refine_with_constraint(bad[i]); return new ShapeT<T>(p); }
+  for (size_t i = 0; i < ord.size(); ++i) p.add_constraint(ord[i]); for (size_t i = 0; i < bad.size(); ++i) p.add_constraint(bad[i]);
+  if (st == "addc" || st == "pend") return new ShapeT<T>(p);
+  if (st == "queried") { (void) p.is_empty(); return new ShapeT<T>(p); }
+  if (st == "minq") { (void) p.minimized_constraints(); return new ShapeT<T>(p); }
+  throw std::runtime_error("case: unknown emptiness state " + st);
+}
+static Shape* empty_shape(const std::string& kind, unsigned dim, const std::string& st, unsigned long seed) {
+  if (kind == "BDS") return empty_shape_t<BDS>(dim, st, seed, false, true);
+  if (kind == "OCT") return empty_shape_t<OCT>(dim, st, seed, false, true);
+  return empty_shape_t<Rational_Box>(dim, st, seed, true, false);
+}
+
 static void widen_call(const std::string& W, Polyhedron& x, const Polyhedron& y, unsigned* tp) {
   if (W == "H79") x.H79_widening_assign(y, tp);
   else if (W == "BHRZ03") x.BHRZ03_widening_assign(y, tp);
@@ -399,7 +461,12 @@ int main(int argc, char** argv) {
       else if (cmd == "end") std::cout << "end\n";
       else {
         try {
-          if (cmd == "new" && is_shape_kind(tk.t.at(2))) {
+          if (cmd == "newe") {
+            int id = tk.nextl(); std::string topo = tk.next(); unsigned dim = tk.nextl(); std::string st = tk.next(); unsigned long seed = tk.nextl();
+            if (is_shape_kind(topo)) { sput(id, empty_shape(topo, dim, st, seed)); std::cout << "res newe ok\n"; print_sstate("st", id, *sget(id)); }
+            else { put(id, empty_poly(topo == "C", dim, st, seed)); std::cout << "res newe ok\n"; print_state("st", id, *get(id)); }
+          }
+          else if (cmd == "new" && is_shape_kind(tk.t.at(2))) {
             int id = tk.nextl(); std::string kind = tk.next(); unsigned dim = tk.nextl(); std::string how = tk.next();
             sput(id, new_shape(kind, dim, how, tk)); std::cout << "res new ok\n"; print_sstate("st", id, *sget(id)); }
           else if (cmd == "new") { int id = std::atoi(tk.t[1].c_str()); do_new(tk); std::cout << "res new ok\n"; print_state("st", id, *get(id)); }
